@@ -302,7 +302,7 @@ window extended past the body end (or close-delimited); distinct by decoded-choi
     }],
     randoms: &[RandomDef {
         name: "histories",
-        cases: |t: Tier| t.pick(400_000, 40_000_000),
+        cases: |t: Tier| t.pick(800_000, 40_000_000),
         tape_len: 160,
         exec: None,
     }],
